@@ -3,7 +3,7 @@
 import os
 import re
 
-from common import COQ, CACHE, VERIF, log, run, model_hash, files_under
+from common import COQ, CACHE, VERIF, log, run, proofs_hash, files_under
 
 ALLOWED_AXIOMS = set()   # none: every property theorem is closed under the global context
 
@@ -59,7 +59,7 @@ def audit(prop):
         res["problems"] += ["forbidden construct: " + h for h in hits]
     cache = os.path.join(CACHE, "proofs")
     os.makedirs(cache, exist_ok=True)
-    outp = os.path.join(cache, "%s.%s.out" % (prop, model_hash()[:16]))
+    outp = os.path.join(cache, "%s.%s.out" % (prop, proofs_hash()[:16]))
     if os.path.exists(outp):
         out = open(outp).read()
         rc = 0
@@ -68,7 +68,7 @@ def audit(prop):
             if f.startswith(prop + "."):
                 os.remove(os.path.join(cache, f))
         # .vo files are up to date (ensure_tools ran make); re-check this file to capture Print Assumptions
-        rc, out, dt = run(["coqc", "-Q", ".", "Entrait", "Properties/%s.v" % prop], cwd=COQ, timeout=1800)
+        rc, out, dt = run(["coqc", "-Q", ".", "Entrait", "-o", os.path.join(cache, prop + ".vo"), "Properties/%s.v" % prop], cwd=COQ, timeout=1800)
         if rc == 0:
             with open(outp, "w") as fh:
                 fh.write(out)
@@ -99,12 +99,53 @@ def audit(prop):
             else:
                 res["problems"].append("%s depends on %s" % (name, sorted(axioms)))
     res["discharged"] = min(closed, len(names))
-    # pinned statements
-    pins = os.path.join(COQ, "Properties", "Pins.v")
-    if os.path.exists(pins):
-        ptext = strip_comments(open(pins).read())
-        for n in names:
-            if not re.search(r"Check\s+\(?\s*%s\.%s\b" % (prop, re.escape(n)), ptext) and n.startswith(prop.lower()):
-                res["problems"].append("statement of %s is not pinned in Properties/Pins.v" % n)
+    # pinned statements: the text of every theorem statement is recorded in coq/Properties/pins.json
+    # (updated only by `python3 harness/proofs.py pin`); a silently weakened statement fails the audit
+    pins = load_pins()
+    for n, stmt in statements(text).items():
+        want = pins.get(prop, {}).get(n)
+        if want is None:
+            res["problems"].append("statement of %s is not pinned in Properties/pins.json" % n)
+        elif want != stmt:
+            res["problems"].append("statement of %s differs from its pinned text" % n)
+    for n in pins.get(prop, {}):
+        if n not in names:
+            res["problems"].append("pinned theorem %s is missing from Properties/%s.v" % (n, prop))
     res["ok"] = not res["problems"] and res["obligations"] > 0 and res["discharged"] == res["obligations"]
     return res
+
+
+PINS = os.path.join(COQ, "Properties", "pins.json")
+
+
+def statements(text):
+    """name -> whitespace-normalised statement of every Theorem/Example/Corollary in a (comment-stripped) file"""
+    out = {}
+    for m in re.finditer(r"^\s*(?:Theorem|Example|Corollary)\s+([A-Za-z0-9_']+)\s*(.*?)\.\s*Proof\.", text, re.M | re.S):
+        out[m.group(1)] = " ".join(m.group(2).split())
+    return out
+
+
+def load_pins():
+    import json
+    if os.path.exists(PINS):
+        return json.load(open(PINS))
+    return {}
+
+
+def pin_all():
+    import json
+    pins = {}
+    d = os.path.join(COQ, "Properties")
+    for f in sorted(os.listdir(d)):
+        if f.endswith(".v"):
+            pins[f[:-2]] = statements(strip_comments(open(os.path.join(d, f)).read()))
+    with open(PINS, "w") as fh:
+        json.dump(pins, fh, indent=1, sort_keys=True)
+    print("pinned", sum(len(v) for v in pins.values()), "statements")
+
+
+if __name__ == "__main__":
+    import sys
+    if sys.argv[1:] == ["pin"]:
+        pin_all()
